@@ -29,6 +29,26 @@ impl VerifCollectionView {
 /*@EXTRACT:poison@*/
 
 /*@EXTRACT:set_read_only@*/
+
+/*@EXTRACT:begin_delete@*/
+
+    /// Statement slice of the async `close`: its admission loop (everything before
+    /// the first await), verbatim. `*proceeds` is set iff control falls out of the
+    /// loop, i.e. close goes on to drain the gate and flush.
+    fn verif_close_admission(&self, proceeds: &mut bool) -> Result<(), DBError> {
+/*@EXTRACT:close_admission@*/
+        *proceeds = true;
+        Ok(())
+    }
+
+    /// Statement slice of the async `close`: the lifecycle re-check that runs AFTER
+    /// the exclusive operation gate has drained every admitted operation, verbatim.
+    /// `*proceeds` is set iff close goes on to `flush_inner` (storage writes).
+    fn verif_close_post_drain(&self, proceeds: &mut bool) -> Result<(), DBError> {
+/*@EXTRACT:close_post_drain@*/
+        *proceeds = true;
+        Ok(())
+    }
 }
 
 fn view(lifecycle: u8, read_only: bool, db_ro: bool) -> ManuallyDrop<VerifCollectionView> {
@@ -149,6 +169,69 @@ fn c06_state_view() {
     assert!((s == CollectionState::Active) == (l == LIFECYCLE_ACTIVE), "OBL:C06.life.state_active_iff");
     assert!(v.is_active_handle() == (l == LIFECYCLE_ACTIVE), "OBL:C06.life.state_active_iff");
     assert!((s == CollectionState::Poisoned) == (l == LIFECYCLE_POISONED), "OBL:C06.life.state_active_iff");
+    kani::cover!(true, "COVER:reach");
+}
+
+/// close(), admission: only an Active or already-Closing handle goes on to drain
+/// and flush (becoming Closing); Closed/Deleted answer Ok without doing anything;
+/// Deleting and Poisoned (and any unknown byte) are refused; flags untouched.
+#[kani::proof]
+#[kani::unwind(3)]
+fn c06_close_admission() {
+    let (l, ro, dro): (u8, bool, bool) = (kani::any(), kani::any(), kani::any());
+    let v = view(l, ro, dro);
+    let mut proceeds = false;
+    let r = ManuallyDrop::new(v.verif_close_admission(&mut proceeds));
+    let (l2, ro2, dro2) = snap(&v);
+    assert!(!proceeds || ((l == LIFECYCLE_ACTIVE || l == LIFECYCLE_CLOSING) && l2 == LIFECYCLE_CLOSING), "OBL:C06.life.close_admits_only_active_or_closing");
+    assert!(proceeds || l2 == l, "OBL:C06.life.close_admission_frame");
+    assert!(ro2 == ro && dro2 == dro, "OBL:C06.life.close_admission_frame");
+    assert!(!(l == LIFECYCLE_POISONED || l == LIFECYCLE_DELETING) || (r.is_err() && !proceeds), "OBL:C06.life.close_refuses_poisoned_and_deleting");
+    assert!(!(l == LIFECYCLE_CLOSED || l == LIFECYCLE_DELETED) || (r.is_ok() && !proceeds), "OBL:C06.life.close_is_idempotent_on_closed");
+    kani::cover!(proceeds, "COVER:proceeds");
+    kani::cover!(r.is_err(), "COVER:refused");
+    kani::cover!(true, "COVER:reach");
+}
+
+/// close(), after the gate has drained: whatever happened while close was queued
+/// (a cancelled mutation poisoned the handle, a delete began), close writes to
+/// storage ONLY IF the handle is still Closing — "no call on it, including calls
+/// that were already queued when the transition began, changes anything stored".
+#[kani::proof]
+#[kani::unwind(2)]
+fn c06_close_post_drain() {
+    let (l, ro, dro): (u8, bool, bool) = (kani::any(), kani::any(), kani::any());
+    let v = view(l, ro, dro);
+    let mut proceeds = false;
+    let r = ManuallyDrop::new(v.verif_close_post_drain(&mut proceeds));
+    assert!(!proceeds || l == LIFECYCLE_CLOSING, "OBL:C06.life.queued_close_flushes_only_if_still_closing");
+    assert!(!(l == LIFECYCLE_POISONED) || (r.is_err() && !proceeds), "OBL:C06.life.queued_close_flushes_only_if_still_closing");
+    assert!(snap(&v) == (l, ro, dro), "OBL:C06.life.close_post_drain_frame");
+    kani::cover!(proceeds, "COVER:proceeds");
+    kani::cover!(l == LIFECYCLE_POISONED, "COVER:poisoned_while_queued");
+    kani::cover!(true, "COVER:reach");
+}
+
+/// begin_delete(): from every state the code stores, admission is closed for good
+/// (Deleting or Deleted, read_only set); an unknown byte is refused unchanged.
+#[kani::proof]
+#[kani::unwind(3)]
+fn c06_begin_delete() {
+    let (l, ro, dro): (u8, bool, bool) = (kani::any(), kani::any(), kani::any());
+    let v = view(l, ro, dro);
+    let r = ManuallyDrop::new(v.begin_delete());
+    let (l2, ro2, dro2) = snap(&v);
+    if l <= LIFECYCLE_POISONED {
+        assert!(r.is_ok(), "OBL:C06.life.begin_delete_closes_admission");
+        assert!((l2 == LIFECYCLE_DELETING || l2 == LIFECYCLE_DELETED) && ro2, "OBL:C06.life.begin_delete_closes_admission");
+        assert!(l != LIFECYCLE_DELETED || l2 == LIFECYCLE_DELETED, "OBL:C06.life.begin_delete_closes_admission");
+    } else {
+        assert!(r.is_err() && l2 == l && ro2 == ro, "OBL:C06.life.begin_delete_refuses_unknown_state");
+    }
+    assert!(dro2 == dro, "OBL:C06.life.begin_delete_closes_admission");
+    let w = ManuallyDrop::new(v.ensure_mutable());
+    assert!(w.is_err(), "OBL:C06.life.deleted_never_writes");
+    kani::cover!(l == LIFECYCLE_POISONED && r.is_ok(), "COVER:poisoned_deletable");
     kani::cover!(true, "COVER:reach");
 }
 
